@@ -25,7 +25,7 @@ def _has_quantifier(fs):
     return False
 
 
-def check_valid(pc, goal, timeout_s=20.0, want_model=True):
+def check_valid(pc, goal, timeout_s=20.0, want_model=True, second_opinion=True):
     """Is  /\\ pc  =>  goal  valid?
     -> ("valid", None, backend) | ("invalid", model, "") | ("unknown", None, reason)"""
     fs = list(pc) + [z3.Not(goal)]
@@ -42,7 +42,13 @@ def check_valid(pc, goal, timeout_s=20.0, want_model=True):
         return "valid", None, "z3"
     if r == z3.sat and not quant:
         return "invalid", s.model(), ""
-    reason = "z3: " + (s.reason_unknown() if r == z3.unknown else "sat under e-matching only (no model)")
+    ru = s.reason_unknown() if r == z3.unknown else "sat under e-matching only (no model)"
+    # NOPROOF = the instantiation procedure terminated without a refutation (a definite "not proved");
+    # anything else (timeout, cancel, memory) is a resource limit and never counts against the code
+    definite = r == z3.sat or ("incomplete" in ru and "timeout" not in ru and "cancel" not in ru)
+    reason = ("NOPROOF " if definite else "RESOURCE ") + "z3: " + ru
+    if not second_opinion:
+        return "unknown", None, reason
     # second opinion
     r2 = _cvc5(s, timeout_s)
     if r2 == "unsat":
